@@ -26,7 +26,7 @@ from harness.pool import pmap
 from harness.tlc import printed_tuples, run_tlc
 
 FIN = ("NEG", "ZERO", "POS")
-PROGS = ["interior-code", "interior-guarded", "end"]
+PROGS = ["interior-code", "interior-guarded", "end", "end-standard"]
 
 
 def cfg_text(which: str, inv: bool, log: bool) -> str:
@@ -132,7 +132,22 @@ def pchip_fd_worker(case) -> dict:
         f0, fp, fm = float(f(yt)), float(f(yt + e * vt)), float(f(yt - e * vt))
     plus, minus, cen = (fp - f0) / e, (f0 - fm) / e, (fp - fm) / (2 * e)
     scale = float(w.sum()) * (1.0 + float(vt.abs().max()))
-    r["differentiable"] = abs(plus - minus) <= 1e-4 * scale
+    # AD can only be held to FD where the map y -> P is differentiable AT y (no secant exactly zero, no end
+    # slope exactly on a limiter boundary), or along directions every branch agrees on (shift / scale: the
+    # interpolant is shift-equivariant and homogeneous of degree 1 branch by branch).  Elsewhere: finite only.
+    from fractions import Fraction as F
+
+    from harness.ref.pchip_exact import ExactPchip
+
+    ref = ExactPchip(x, y)
+    regular = all(m != 0 for m in ref.m)
+    if regular and ref.n > 2:
+        for (h0, h1, m0, m1) in ((ref.h[0], ref.h[1], ref.m[0], ref.m[1]), (ref.h[-1], ref.h[-2], ref.m[-1], ref.m[-2])):
+            d0 = ((2 * h0 + h1) * m0 - h0 * m1) / (h0 + h1)
+            if d0 == 0 or abs(d0) == 3 * abs(m0):
+                regular = False
+    direction = name.split("/")[-1]
+    r["differentiable"] = (regular or direction in ("shift", "scale")) and abs(plus - minus) <= 1e-4 * scale
     r["ad"], r["fd"] = ad, cen
     if r["differentiable"] and abs(ad - cen) > 1e-5 * scale:
         r["fail"] = ("mismatch", {"ad": ad, "fd_central": cen, "fd_plus": plus, "fd_minus": minus})
@@ -630,14 +645,14 @@ def run(ctx: Ctx) -> None:
         if len(model.get(which, {})) != 27:
             raise MachineryError(f"TLC did not enumerate the 27 sign patterns of {which}: {len(model.get(which, {}))}")
         ctx.log(f"{which}: {res.get('distinct')} states, violated={verdict[which]}")
-    if verdict["interior-guarded"] or verdict["end"]:
+    if verdict["interior-guarded"] or verdict["end"] or verdict["end-standard"]:
         raise MachineryError(f"the guarded interior / the end-slope program violate finiteness in the abstract domain: {verdict}")
     # ---------------- (2) binding A: concretise every pattern on the real autograd
     from harness.ref.pchip_exact import interior_case
 
-    inside = {"interior-code": 0, "interior-guarded": 0, "end": 0}
+    inside = {"interior-code": 0, "interior-guarded": 0, "end": 0, "end-standard": 0}
     total = {"interior": 0, "end": 0}
-    first_out = {"interior-code": None, "interior-guarded": None, "end": None}
+    first_out = {"interior-code": None, "interior-guarded": None, "end": None, "end-standard": None}
     nonfinite_patterns = set()
     for kind in ("interior", "end"):
         for a in FIN:
@@ -655,7 +670,7 @@ def run(ctx: Ctx) -> None:
                         ctx.case(("pattern", kind, a, b, gname, conc), nontrivial=True,
                                  sample={"kind": kind, "pattern": [a, b, gname], "concrete": list(conc), "real": [repr(v) for v in out]})
                         ctx.traces_validated += 1
-                        for which in (("interior-code", "interior-guarded") if kind == "interior" else ("end",)):
+                        for which in (("interior-code", "interior-guarded") if kind == "interior" else ("end", "end-standard")):
                             if ab in model[which][(a, b, gname)]:
                                 inside[which] += 1
                             elif first_out[which] is None:
@@ -676,8 +691,10 @@ def run(ctx: Ctx) -> None:
         ctx.model_drift(f"the real autograd of _pchip_derivatives matches neither abstract interior program, e.g. {first_out['interior-code']}")
     elif mech == "interior-code" and not nonfinite_patterns:
         raise MachineryError("TLC says the code's program yields NAN gradients, the real autograd agrees with that program, yet no concretisation is non-finite")
-    if inside["end"] != total["end"]:
-        ctx.model_drift(f"the real autograd of the end slope is outside the abstract model's outcomes, e.g. {first_out['end']}")
+    end_mech = "end" if inside["end"] == total["end"] else "end-standard" if inside["end-standard"] == total["end"] else None
+    ctx.coverage["binding_A"]["end_mechanism_identified"] = end_mech
+    if end_mech is None:
+        ctx.model_drift(f"the real autograd of the end slope is outside both abstract end programs' outcomes, e.g. {first_out['end']} / {first_out['end-standard']}")
     # value-level AD vs FD on the real PCHIP1D
     cases = pchip_fd_cases(ctx.rng)
     nd = 0
